@@ -3,6 +3,7 @@
 //! usage: vp <check> [--tier quick|thorough] [--seed N] [--shard i/n] [--out file] [--replay file]
 
 mod c04;
+mod c05;
 mod c09;
 mod c10;
 mod c13;
@@ -11,6 +12,7 @@ mod c16;
 mod c18;
 mod drive;
 mod node;
+mod refbmca;
 mod refcodec;
 mod report;
 
@@ -74,6 +76,7 @@ fn main() {
             }
         },
         "c04" => c04::run(&mut rep, &tier, seed, shard, replay.as_deref()),
+        "c05" => c05::run(&mut rep, &tier, seed, shard, replay.as_deref()),
         "c09" => c09::run(&mut rep, &tier, seed, shard, replay.as_deref()),
         "c10" => c10::run(&mut rep, &tier, seed, shard, replay.as_deref()),
         "c13" => c13::run(&mut rep, &tier, seed, shard, replay.as_deref()),
